@@ -13,6 +13,10 @@ import (
 // synchronisation point: each wllock acquisition - in particular those around the lock-free window of
 // extractOutgoingMessage -, the outgoingWork channel, the harness mutex below).
 //
+// Goroutine 0 requests (want-block / want-have / broadcast want-have), goroutine 1 retracts or upgrades
+// (cancel / want-block); with CIDS=1 both work on CID 0, otherwise each call picks its CID. (The full call
+// alphabet at every gap is HarnessC35Queue's job; this entry adds the scheduler's finer interleavings.)
+//
 // The harness mutex makes "producer call + update of the client model" one step with respect to the other
 // producers (they are serialised by mq.wllock anyway); the sender never takes it, so no sender/producer
 // interleaving is lost.
@@ -21,24 +25,34 @@ import (
 func HarnessC35QueueSched() {
 	q := zz35NewQ(verifrt.Param("NCID", 2))
 	q.enabled = false // no hook injection: the scheduler interleaves
-	ng := verifrt.Param("NG", 2)
 	calls := verifrt.Param("CALLS", 1)
-	q.budget = ng * calls
+	ncid := verifrt.Param("CIDS", 1)
 	var mu sync.Mutex
 	var wg sync.WaitGroup
-	for g := 0; g < ng; g++ {
+	for g := 0; g < 2; g++ {
 		wg.Add(1)
-		go func() {
+		go func(g int) {
 			defer wg.Done()
 			for k := 0; k < calls; k++ {
 				mu.Lock()
-				q.producerCall()
+				i := 0
+				if ncid > 1 {
+					i = verifrt.NondetRange("call_cid", 0, ncid-1)
+				}
+				if g == 0 {
+					q.producerCallOn(i, verifrt.NondetRange("request_kind", 0, 2))
+				} else {
+					q.producerCallOn(i, 3*verifrt.NondetRange("retract_kind", 0, 1)) // 0 = want-block, 3 = cancel
+				}
 				mu.Unlock()
 			}
-		}()
+		}(g)
 	}
 	rounds := verifrt.Param("NSEND", 2)
 	for r := 0; r < rounds; r++ {
+		// between rounds the sender is idle: any producer may run here without spending a pre-emption, the
+		// pre-emption budget is for the interior of a round
+		verifrt.Yield()
 		if r > 0 && verifrt.Param("RB", 1) == 1 && verifrt.NondetRange("round_kind", 0, 1) == 1 {
 			q.mq.rebroadcastWantlist(time.Now(), 0)
 		} else {
@@ -49,3 +63,6 @@ func HarnessC35QueueSched() {
 	q.drainAndCheck()
 	verifrt.Reach("end")
 }
+
+// HarnessC35QueueSched2: the same with a budget of two pre-emptions (thorough tier only).
+func HarnessC35QueueSched2() { HarnessC35QueueSched() }
